@@ -76,6 +76,10 @@ CHECKS = {
         'exhaustive enumeration of small rule graphs + Hypothesis-sampled larger graphs against my own left-call-graph / nullability / cycle analysis; fixed input battery under a recursion limit and watchdog',
         'All 420 one-rule graphs and all 1764 two-rule single-alternative graphs (exhaustive), plus sampled 2x2, 3-rule and 4-6-rule graphs: GrammarError with left recursion off iff a left-call cycle exists; is_lrec/is_memo exact off-cycle; every cycle guarded; battery of 15 inputs from every rule terminates. Exploration with an exhaustive sub-space.',
         'trusts my graph analysis (written from the statement); unbounded recursion is observed as RecursionError at limit 1500 / 10 s alarm on tiny inputs', 'DESIGN.md §3 C16'),
+    'C17': (
+        'property-based testing / fuzzing with a monitor oracle: generated Python expression strings evaluated through safeeval and through real parses under sys.addaudithook with frame attribution; static dunder/impure-call predicate; positive differential against plain eval; two-step histories',
+        'Every builtin name called with plausible arguments, dunder/non-dunder attribute chains, lambdas, comprehensions, walrus, dunder-spelling tricks, nested f-string fields and format specs, names shadowed by AST keys, and a safe sub-grammar; ~24k expressions per quick run through the helper and through constants/alerts in real grammars: no file/import/exec/compile/input/os event is attributed to the expression, exit/quit never run, dunder or impure calls are rejected, safe values equal plain eval, rejected text stays text or a TatSu error, names of an earlier parse do not leak. Exploration.',
+        'pure builtins are my explicit list; C-level escapes that raise no audit event would be missed; exit/quit are observed through same-named recorders installed before TatSu builds its builtin table', 'DESIGN.md §3 C17'),
     'C20': (
         'property-based testing (Hypothesis), reference oracle = builtin format(); repr round trip',
         'Generated-input search: ~50k (text, style, spec, route, colour policy) tuples per quick run compared with the builtin '
